@@ -333,7 +333,7 @@ fn main() {
          lattice cluster with two outliers, jittered cloud, exact line, noisy line, sine curve, duplicated abscissae with conflicting targets) \
          x n in {:?}; kernels linear, Gaussian(0.5), Gaussian(5), polynomial (0,2), (1,3); C-SVC: C in {{.01,1,100}} x class weights (1,1),(1,10),(10,1); \
          nu-SVC / one-class: nu in {{.1,.5,1}}; eps-SVR: C in {{.01,1,100}} x eps_loss in {{.1,.5}}; nu-SVR: nu in {{.1,.5,1}} x C in {{.01,1,100}}; \
-         solver eps in {{1e-3,1e-7}}; f32 and f64; members whose eps is below 8 ulp (of the float type) of max(max U * max|K|, max|p|) cannot resolve the stopping rule and are run only in the thorough tier for a small family (n=8, f32, eps 1e-7, linear / Gaussian(.5), one parameter point per problem type) that exercises the iteration cap; nu-SVR with C=100 only in the thorough tier. Every case is fitted with shrinking off and on (classification additionally as Svm<_,Pr>), \
+         solver eps in {{1e-3,1e-7}}; f32 and f64; members whose eps is below 8 ulp (of the float type) of max(max U * max|K|, max|p|) cannot resolve the stopping rule and are run only in the thorough tier for a small family (n=8, f32, eps 1e-7, linear / Gaussian(.5), one parameter point per problem type) that exercises the iteration cap; nu-SVR with C=100 only in the thorough tier for n<=12; for n>=80 only linear / Gaussian(.5) / polynomial(0,2) and C in {{.01,1}} (the rest needs 10^7 iterations per fit). Every case is fitted with shrinking off and on (classification additionally as Svm<_,Pr>), \
          every fit is one evaluation; non-trivial = the model has at least one non-zero coefficient and the solver made at least one iteration; \
          the whole Cartesian product is run (count asserted).",
         sizes
@@ -383,8 +383,9 @@ fn main() {
                 }
                 for &nu in &nus {
                     for &c in &cs {
-                        // nu-SVR with C = 100 converges very slowly on the smooth kernels: thorough tier only
-                        if c > 10.0 && !thorough {
+                        // nu-SVR with C = 100 (an interpolation problem on the smooth kernels while nu is ignored)
+                        // needs 10^6..10^7 iterations: thorough tier, n <= 12 only
+                        if c > 10.0 && !(thorough && d.x.len() <= 12) {
                             continue;
                         }
                         problems.push(Problem::NuSvr { nu, c });
@@ -393,9 +394,23 @@ fn main() {
             }
         }
         let ymax = d.targets.iter().fold(0.0f64, |m, t| m.max(t.abs()));
+        let large = d.x.len() >= 80;
         for k in &kernels {
+            // n >= 80 (thorough): the two ill-conditioned kernels and C = 100 run into the 10^7 iteration cap
+            // (minutes per fit); the breadth of the grid is cut there, not the oracle
+            if large && (*k == Kern::Gaussian(5.0) || *k == Kern::Poly(1.0, 3.0)) {
+                continue;
+            }
             let kmax = d.x.iter().map(|a| d.x.iter().map(|b| oracle::kern(k, a, b).abs()).fold(0.0, f64::max)).fold(0.0, f64::max);
             for p in &problems {
+                let c_large = match p {
+                    Problem::CSvc { c_pos, c_neg } => c_pos.min(*c_neg) >= 100.0,
+                    Problem::EpsSvr { c, .. } | Problem::NuSvr { c, .. } => *c >= 100.0,
+                    _ => false,
+                };
+                if large && c_large {
+                    continue;
+                }
                 for &e in &solver_eps {
                     for f in floats {
                         // Domain filter (float resolution): the stopping rule compares gradient differences with
